@@ -4,7 +4,14 @@ import subprocess, sys, os, re
 patch = os.path.abspath(sys.argv[1]); ids = sys.argv[2:]
 tier = os.environ.get('VERIF_TIER', 'quick')
 assert subprocess.run(['git', '-C', '/repo', 'status', '--porcelain', '--untracked-files=no'], capture_output=True, text=True).stdout.strip() == '', '/repo not clean'
-subprocess.run(['git', '-C', '/repo', 'apply', patch], check=True)
+if subprocess.run(['git', '-C', '/repo', 'apply', patch]).returncode != 0:
+    # context moved by a later fix: three-way
+    r = subprocess.run(['git', '-C', '/repo', 'apply', '-3', patch], capture_output=True, text=True)
+    bad = subprocess.run(['git', '-C', '/repo', 'diff', '--name-only', '--diff-filter=U'], capture_output=True, text=True).stdout.strip()
+    if r.returncode != 0 or bad:
+        subprocess.run(['git', '-C', '/repo', 'reset', '-q', '--hard', 'HEAD']); sys.exit('patch does not apply (even 3-way): ' + patch)
+    subprocess.run(['git', '-C', '/repo', 'reset', '-q'])
+    print('(applied three-way)')
 try:
     for i in ids:
         p = subprocess.run(['/verif/verif', 'check', i, '--tier', tier], capture_output=True, text=True, cwd='/verif')
